@@ -80,8 +80,6 @@ Fixpoint c20_model (dbg : bool) (t : term) (ks : list key) : list (list N) :=
       end
   end.
 
-Definition term_of_ed (e : ed) : term := mkTerm (draft e) 0 (cur e) (hist e) (focus e).
-
 Fixpoint c20_spec (e : ed) (ks : list key) : list (list N) :=
   match ks with
   | [] => [enc_hist (term_of_ed e)]
